@@ -2193,7 +2193,7 @@ def _attrs_to_init_script(
     annotations = {"return": None}
 
     for a in attrs:
-        if a.validator:
+        if callable(a.validator) or a.validator:
             attrs_to_validate.append(a)
 
         attr_name = a.name
